@@ -19,13 +19,15 @@ class Poll(ugn.UGen):
 
     @classmethod
     def new(cls, trig, input, label=None, trig_id=-1):
-        rate = [gpp.ugen_param(item)._as_ugen_rate() for item in utl.as_list(input)]
-        rate = utl.unbubble(rate)
-        cls._multi_new(rate, trig, input, label, trig_id)
+        # The rate of each unit is the rate of its channel, known in _new1
+        # after multichannel expansion (input may be nested).
+        cls._multi_new(None, trig, input, label, trig_id)
         return input
 
     @classmethod
     def _new1(cls, rate, trig, input, label, trig_id):  # override
+        if rate is None:
+            rate = gpp.ugen_param(input)._as_ugen_rate()
         label = label or f'UGen({type(input).__name__})'
         label = [int(x) for x in bytes(label, 'utf-8')]  # *** TODO: sc ascii method
         # label = [x - 256 if x > 127 else x for x in bytes(label, 'utf-8')]  # sclang uses signed, works the same
